@@ -283,7 +283,12 @@ def wiring_case(arg):
                        'dests': dests, 'relay_method': 'consistent-hashing', 'hash_type': hash_type})
   bad = []
   try:
-    sysm.reset()
+    try:
+      sysm.reset()
+    except Exception as e:   # noqa
+      bad.append(('compat:wiring', 'relay configured with DESTINATIONS = %s cannot build its ring: %r' % (
+        ', '.join(relayh.dest_str(d) for d in dests), e), {'wiring_order': order if isinstance(order, str) else list(order), 'hash': hash_type}))
+      return len(dests), bad
     from carbon import state
     router = state.client_manager.router
     got = [tuple(e) for e in router.ring.ring]
